@@ -162,6 +162,10 @@ class _Compose:
             if v is not None:
                 env[s.targets[0].id] = v
             return self.run(rest, env, facts)
+        if isinstance(s, ast.AugAssign) and isinstance(s.value, ast.IfExp):
+            a1 = ast.copy_location(ast.AugAssign(target=s.target, op=s.op, value=s.value.body), s)
+            a2 = ast.copy_location(ast.AugAssign(target=s.target, op=s.op, value=s.value.orelse), s)
+            return self.run([ast.copy_location(ast.If(test=s.value.test, body=[a1], orelse=[a2]), s)] + rest, env, facts)
         mut = None
         if isinstance(s, ast.AugAssign) and isinstance(s.op, ast.Add) and isinstance(s.target, ast.Name) and s.target.id in env:
             mut = (s.target.id, s.value, "back")
